@@ -584,6 +584,166 @@ def unit_threads(unit):
     return agg
 
 
+def _clone_run(seq):
+    """replay one sequence of clone-history operations from scratch; returns (objects, error of the LAST op or None)"""
+    import copy, gc
+    from serif import Vector, Table
+    objs, n, last = [], 0, None
+    for op in seq:
+        last = None
+        kind = op[0]
+        try:
+            if kind == "new":
+                objs.append(Vector([1, 2, 3]))
+            elif kind == "newtab":
+                objs.append(Table({"a": [1, 2, 3], "b": [4, 5, 6]}))
+            elif kind == "tuple":
+                tup = tuple([7, 8, 9])          # a NEW tuple object in every replay (a literal would be one shared constant)
+                objs.append(Vector(tup)); objs.append(Vector(tup))
+            elif kind == "copy":
+                objs.append(copy.copy(objs[op[1]]))
+            elif kind == "deepcopy":
+                objs.append(copy.deepcopy(objs[op[1]]))
+            elif kind == "cols":          # a second vector over the storage tuple of a vector / of a table's first column
+                src = objs[op[1]]
+                objs.append(Vector(src["a"].cols() if type(src).__name__ == "Table" else src.cols()))
+                del src
+            elif kind == "drop":
+                objs[op[1]] = None
+                gc.collect(1)               # "garbage-collected": a table and its columns may sit in a reference cycle (young generations suffice here)
+                from mc import valloc
+                if valloc.CURRENT is not None:
+                    valloc.CURRENT.sweep()      # the virtual allocator lets go of storage that only it still references (as CPython frees it)
+            elif kind == "write":
+                n += 1
+                x = objs[op[1]]
+                try:
+                    if type(x).__name__ == "Table":
+                        if op[2] == "cell":
+                            x[0, "a"] = 100 + n
+                        elif op[2] == "row":
+                            x[1] = [200 + n, 300 + n]
+                        else:
+                            x["a"][2] = 400 + n
+                    else:
+                        x[0] = 100 + n
+                finally:
+                    del x
+        except Exception as e:
+            last = e
+    return objs, last
+
+
+def _storage_of(x):
+    return x._underlying[0]._underlying if type(x).__name__ == "Table" else x._underlying
+
+
+def unit_clone_histories(unit):
+    """histories over vectors that reach a storage tuple by OTHER routes than the constructor: copy.copy / copy.deepcopy clones
+    (never registered as owners), `Vector(x.cols())` (a second vector over x's own storage, also over a table column's), dropped
+    partners - every sequence of <= depth operations on <= 3 objects, and after each one a write through every live object (a table
+    through cell, row and column view).  Judged: an AliasError while NO other live object holds that storage tuple is spurious.
+    Whether a write next to a live sharer is refused is not judged here (the H part does that for registered sharers)."""
+    from serif.alias_tracker import AliasError
+    _, first, depth = unit
+    agg = Agg()
+    core.reset_globals("fresh")
+
+    def ops_for(objs):
+        out = []
+        live = [i for i, o in enumerate(objs) if o is not None]
+        if len(objs) < 3:               # at most three objects are ever created in one history
+            for i in live:
+                out += [("copy", i), ("cols", i)]
+                if type(objs[i]).__name__ != "Table":
+                    out.append(("deepcopy", i))
+        for i in live:
+            out.append(("drop", i))
+            out.append(("write", i, "cell" if type(objs[i]).__name__ == "Table" else "elem"))      # inside a history one write form; the probes use all
+        return out
+
+    def probe(seq):
+        objs, _ = _clone_run(seq)
+        shape = [None if o is None else type(o).__name__ for o in objs]
+        del objs
+        for i, tn in enumerate(shape):
+            if tn is None:
+                continue
+            for w in (("cell", "row", "view") if tn == "Table" else ("elem",)):
+                agg.evals += 1; agg.transitions += 1; agg.compared += 1
+                objs2, err = _clone_run(seq + [("write", i, w)])
+                if isinstance(err, AliasError):
+                    tgt = objs2[i]
+                    sharers = [j for j, y in enumerate(objs2) if y is not None and j != i and _storage_of(y) is _storage_of(tgt)]
+                    if type(tgt).__name__ == "Table":
+                        sharers = [j for j in sharers if objs2[j] is not tgt]
+                    if not sharers:
+                        agg.nontrivial += 1
+                        agg.violation(V("clones.write", "spurious-AliasError", {"steps": [list(o_) for o_ in seq] + [["write", i, w]], "family": "clone histories"},
+                                        "written (no other live object holds that storage)", "AliasError"))
+                    else:
+                        agg.outcomes["justified-refusal"] += 1
+                elif err is None:
+                    agg.outcomes["write-ok"] += 1
+                else:
+                    agg.outcomes["other-event"] += 1
+
+    def dfs(seq, d):
+        agg.states += 1
+        probe(seq)
+        if d == 0:
+            return
+        objs, _ = _clone_run(seq)
+        ops = ops_for(objs)
+        del objs                       # nothing of this replay may stay alive while the next ones run
+        for op in ops:
+            dfs(seq + [op], d - 1)
+    dfs([first], depth)
+    core.reset_globals("fresh")
+    return agg
+
+
+def unit_many_sharers(unit):
+    """k = 2 .. 33 vectors alive over ONE caller tuple; all but one are dropped (the survivor first-, last- or middle-built, the
+    others dropped in building or in reverse order): the survivor shares with nobody and is written.  With two survivors the
+    write is refused; after one more drop it is accepted."""
+    from serif import Vector
+    from serif.alias_tracker import AliasError
+    agg = Agg()
+    core.reset_globals("fresh")
+    for k in range(2, 34):
+        for keep in sorted({0, k - 1, k // 2}):
+            for order in ("building-order", "reverse-order"):
+                for leave_two in (False, True):
+                    if leave_two and k < 3:
+                        continue
+                    agg.evals += 1; agg.transitions += k + 2; agg.states += 1; agg.nontrivial += 1; agg.compared += 1
+                    case = {"sharers_built": k, "survivor": keep, "dropped_in": order, "family": "many sharers", "steps": ["build k vectors over one tuple", "drop all but the survivor", "write it"]}
+                    tup = tuple(range(5))
+                    vs = [Vector(tup) for _ in range(k)]
+                    second = (keep + 1) % k
+                    idx = [i for i in (range(k) if order == "building-order" else reversed(range(k))) if i != keep and not (leave_two and i == second)]
+                    for i in idx:
+                        vs[i] = None
+                    try:
+                        if leave_two:
+                            try:
+                                vs[keep][0] = 50
+                            except AliasError:
+                                pass
+                            vs[second] = None
+                        vs[keep][1] = 99
+                    except AliasError:
+                        agg.violation(V("many-sharers.write", "spurious-AliasError", case, "written (every partner has been dropped)", "AliasError"))
+                        continue
+                    except Exception as e:
+                        agg.violation(V("many-sharers.write", "raises-" + type(e).__name__, case, None, repr(e)[:80]))
+                        continue
+                    agg.outcomes["write-ok"] += 1
+    core.reset_globals("fresh")
+    return agg
+
+
 def check(ctx):
     agg = Agg()
     depth = ctx.pick(6, 7)
@@ -598,6 +758,9 @@ def check(ctx):
     from mc import purity
     cunits = [("cat", u[1], u[2], u[3]) for u in purity.plan(()) if u[1] not in ("acc", "acc?")]
     for p in core.pmap(unit_catalogue, cunits) + core.pmap(unit_threads, [("threads",), ("threads-again",)]):
+        agg.merge(p)
+    cd = ctx.pick(4, 5)
+    for p in core.pmap(unit_clone_histories, [("clones", f, cd) for f in (("new",), ("newtab",), ("tuple",))]) + core.pmap(unit_many_sharers, [("many",)]):
         agg.merge(p)
     agg.notes["deviation_bound"] = dev
     agg.sample({"events": ["tuple", "V_tup", "V_list", "copy", "T_dict", "t_setattr_list", "w_int", "drop", "collect", "...+alloc choices"]})
@@ -615,6 +778,17 @@ def coverage_goals(ctx, agg):
 
 def replay(rec):
     case = rec.get("case") or {}
+    if case.get("family") == "many sharers":
+        return set(unit_many_sharers(("many",)).viol)
+    if case.get("family") == "clone histories":
+        agg = Agg()
+        from serif.alias_tracker import AliasError
+        core.reset_globals("fresh")
+        seq = [tuple(o) for o in case["steps"]]
+        objs, err = _clone_run(seq)
+        if isinstance(err, AliasError):
+            agg.violation(V("clones.write", "spurious-AliasError", case))
+        return set(agg.viol)
     if "steps_run_in_thread" in case:
         return set(unit_threads(("threads",)).viol)
     if "operation" in case and "operand" in case:
